@@ -811,10 +811,14 @@ pub fn arb_deep_or_wide(k: usize, w: usize) -> BoxedStrategy<Tree> {
             }
             t
         }),
-        (proptest::collection::vec((arb_tree_name(), leaf), 0..=w), 0..3u8).prop_map(|(fs, kind)| match kind {
+        (proptest::collection::vec((arb_tree_name(), leaf), 0..=w), 0..6u8).prop_map(|(fs, kind)| match kind {
             0 => Tree::Struct("Wide".into(), TData::Struct(fs)),
             1 => Tree::Enum("WideE".into(), fs.into_iter().map(|(n, t)| (n, TData::Newtype(Box::new(t)))).collect()),
-            _ => Tree::Tuple(fs.into_iter().map(|(_, t)| t).collect()),
+            2 => Tree::Tuple(fs.into_iter().map(|(_, t)| t).collect()),
+            // tuple structs / tuple variants / struct variants wider than any plain tuple
+            3 => Tree::Struct("WideT".into(), TData::Tuple(fs.into_iter().map(|(_, t)| t).collect())),
+            4 => Tree::Enum("WideV".into(), vec![("Unit".to_string(), TData::Unit), ("Tup".to_string(), TData::Tuple(fs.into_iter().map(|(_, t)| t).collect()))]),
+            _ => Tree::Enum("WideS".into(), vec![("Rec".to_string(), TData::Struct(fs)), ("Unit".to_string(), TData::Unit)]),
         }),
     ]
     .boxed()
